@@ -292,8 +292,8 @@ theorem site_exactly_one (s : Site) (q : SiteReq) :
 theorem pred_nil (s : Site) (hs : s ≠ .rest) (q : SiteReq) (h : q.err = .none) : s.pred q = true := by
   cases s <;> first
     | exact absurd rfl hs
-    | simp [Site.pred, h, ErrClass.grpcCode, codeAcceptable, sqlAcceptable, cDeadlineExceeded, cInternal, cUnavailable,
-        cDataLoss, cUnimplemented, cResourceExhausted]
+    | simp [Site.pred, h, ErrClass.grpcCode, codeAcceptable, sqlAcceptable, dbAcceptable, cDeadlineExceeded, cInternal,
+        cUnavailable, cDataLoss, cUnimplemented, cResourceExhausted]
 
 theorem site_marks_pass (s : Site) (hs : s ≠ .rest) (q : SiteReq) :
     smarksOf (siteEvents s .pass q) = [if q.panics then .fail else if s.pred q then .succ else .fail] := by
@@ -370,5 +370,157 @@ theorem named_isolation (r : Registry) (name other : String) (now : Nat) (f : Br
     | none => exact Registry.find_set_other _ _ _ _ h
   · intro b hb
     simp [Registry.get, hb]
+
+/-! ## 9. decision tables of the sites' predicates over the error classes -/
+
+/-- orm.go `isScanFailed`: exactly nil and (anything that `errors.Is`) `context.DeadlineExceeded` are not scan failures -/
+theorem isScanFailed_table (e : ErrClass) : isScanFailed e = false ↔ e = .none ∨ e = .ctxDeadline := by
+  cases e <;> simp [isScanFailed]
+
+theorem foldl_withAcceptable (ps : List (ErrClass → Bool)) (acc : Option (ErrClass → Bool)) (e : ErrClass) :
+    optEval (ps.foldl withAcceptable acc) e = (optEval acc e || ps.any (· e)) := by
+  induction ps generalizing acc with
+  | nil => simp
+  | cons p ps ih =>
+    rw [List.foldl_cons, ih]
+    cases acc <;> simp [withAcceptable, optEval, Bool.or_assoc]
+
+/-- **any number of `WithAcceptable` options**, installed in any order by the constructor loop: the connection accepts
+what at least one of them accepts (each closure chains onto the connection's own previous predicate, nothing is lost or
+shared) -/
+theorem installOptions_any (ps : List (ErrClass → Bool)) (e : ErrClass) :
+    optEval (installOptions ps) e = ps.any (· e) := by
+  unfold installOptions
+  rw [foldl_withAcceptable]
+  simp [optEval]
+
+/-- `db.acceptable` as a table: nil, sql.ErrNoRows, sql.ErrTxDone, context.Canceled, an acceptableError, or an error one
+of the installed options accepts — nothing else (in particular not context.DeadlineExceeded, not a nested open breaker) -/
+theorem sqlAcceptable_table (q : SiteReq) :
+    sqlAcceptable q = true ↔
+      q.err = .none ∨ q.err = .sqlNoRows ∨ q.err = .sqlTxDone ∨ q.err = .ctxCanceled ∨ q.err = .sqlAcceptable
+      ∨ ∃ i, i < q.userAccepts ∧ q.err = .custom i := by
+  unfold sqlAcceptable dbAcceptable
+  rw [installOptions_any]
+  have hany : ((userOptions q.userAccepts).any (· q.err)) = true ↔ ∃ i, i < q.userAccepts ∧ q.err = .custom i := by
+    simp [userOptions, customOption, List.any_map, List.any_eq_true, List.mem_range]
+  cases he : q.err <;> simp [he] at hany ⊢ <;> exact hany
+
+/-- **decision table of `queryRows` (connection and prepared statement)** over where the error comes from × its class:
+an admitted query is recorded as a FAILURE exactly when (a) the query went through and the scanner hit the context
+deadline — `isScanFailed` excludes it, and `db.acceptable` does not accept it — or (b) the query itself (connection
+provider / driver) failed with an error `db.acceptable` rejects.  Every other scan error (no rows, a conversion error, a
+cancelled context, anything else) is the caller's problem and counts as success. -/
+theorem sqlx_query_table (q : SiteReq) :
+    Site.sqlxQuery.pred q = false ↔
+      (q.fromScan = true ∧ q.err = .ctxDeadline) ∨ (q.fromScan = false ∧ sqlAcceptable q = false) := by
+  have hdl : q.err = .ctxDeadline → sqlAcceptable q = false := by
+    intro h
+    cases hs : sqlAcceptable q
+    · rfl
+    · have := (sqlAcceptable_table q).mp hs
+      simp [h] at this
+  have hnil : q.err = .none → sqlAcceptable q = true := fun h => (sqlAcceptable_table q).mpr (Or.inl h)
+  simp only [Site.pred, scanFailedVar, scanFailedAfter]
+  cases hf : q.fromScan
+  · simp
+  · by_cases h1 : q.err = .ctxDeadline
+    · simp [h1, isScanFailed, hdl h1]
+    · by_cases h2 : q.err = .none
+      · simp [h2, isScanFailed, hnil h2]
+      · have : isScanFailed q.err = true := by
+          cases hi : isScanFailed q.err
+          · rcases (isScanFailed_table _).mp hi with h | h <;> contradiction
+          · rfl
+        simp [this, h1]
+
+/-- non-vacuity: the scan-stage deadline is a failure, the scan-stage "no rows" / other error a success, the
+query-stage other error a failure -/
+example : Site.sqlxQuery.pred { err := .ctxDeadline, fromScan := true } = false
+    ∧ Site.sqlxQuery.pred { err := .other, fromScan := true } = true
+    ∧ Site.sqlxQuery.pred { err := .sqlNoRows, fromScan := true } = true
+    ∧ Site.sqlxQuery.pred { err := .other, fromScan := false } = false
+    ∧ Site.sqlx.pred { err := .custom 1, userAccepts := 2 } = true
+    ∧ Site.sqlx.pred { err := .custom 1, userAccepts := 1 } = false := by decide
+
+/-- redis hooks: exactly nil, redis.Nil and context.Canceled are successes -/
+theorem redis_table (q : SiteReq) :
+    Site.redisProcess.pred q = true ↔ q.err = .none ∨ q.err = .redisNil ∨ q.err = .ctxCanceled := by
+  simp [Site.pred]
+
+/-- zrpc server (unary and stream): a failure exactly for context.DeadlineExceeded, a nested open breaker, or a status
+error with one of the six codes; zrpc client: exactly the six codes -/
+theorem zrpc_table (q : SiteReq) :
+    (Site.zrpcServerUnary.pred q = false ↔
+      q.err = .ctxDeadline ∨ q.err = .brkOpen ∨ ∃ c, q.err = .grpc c ∧ (c = 4 ∨ c = 8 ∨ c = 12 ∨ c = 13 ∨ c = 14 ∨ c = 15))
+    ∧ Site.zrpcServerStream.pred q = Site.zrpcServerUnary.pred q
+    ∧ (Site.zrpcClient.pred q = false ↔ ∃ c, q.err = .grpc c ∧ (c = 4 ∨ c = 8 ∨ c = 12 ∨ c = 13 ∨ c = 14 ∨ c = 15)) := by
+  have hU : codeAcceptable cUnknown = true := by decide
+  have h0 : codeAcceptable 0 = true := by decide
+  refine ⟨?_, rfl, ?_⟩
+  · cases he : q.err <;> simp [Site.pred, he, ErrClass.grpcCode, hU, h0, codeAcceptable_table]
+  · cases he : q.err <;> simp [Site.pred, he, ErrClass.grpcCode, hU, h0, codeAcceptable_table]
+
+/-! ## 10. end to end: call site → wrapper → `accept()` → window -/
+
+theorem applyMarks_single (b : Breaker) (now : Nat) (m : Mark) : (b.applyMarks now [m]).rw = b.rw.add now m := rfl
+
+/-- **one request at any site, end to end**, for every breaker state, time, draw, site and request:
+rejected ⇒ the window the breaker looked at was over the threshold, the wrapped request did not run, the site answered
+with its rejection value, and exactly one drop went into the window at `now`;
+admitted ⇒ the wrapped request ran exactly once and exactly one mark went into the window at `now`: success iff the
+site's predicate holds (a panic is a failure at the `doReq` sites and is re-raised). -/
+theorem site_end_to_end (b : Breaker) (now : Nat) (u : Rat) (s : Site) (q : SiteReq) :
+    ((b.accept now u).1 = .reject →
+        overThreshold (b.history now) ∧ (b.site now u s q).1 = [.mark .drop, .returned s.rejectRet]
+        ∧ (b.site now u s q).2.rw = b.rw.add now .drop)
+    ∧ ((b.accept now u).1 = .pass →
+        (b.site now u s q).1.count .ranReq = 1
+        ∧ (b.site now u s q).1.getLast? = some (if q.panics then .repanicked else .returned (s.admitRet q))
+        ∧ (b.site now u s q).2.rw =
+            b.rw.add now (if s ≠ .rest ∧ q.panics then .fail else if s.pred q then .succ else .fail)) := by
+  constructor
+  · intro h
+    refine ⟨reject_only_if_over_threshold b now u h, ?_, ?_⟩
+    · simp [Breaker.site, h, siteEvents]
+    · simp only [Breaker.site, h, siteEvents, smarksOf, List.filterMap_cons, List.filterMap_nil]
+      rw [applyMarks_single, accept_rw]
+  · intro h
+    have h1 := (site_exactly_one s q).2
+    refine ⟨?_, ?_, ?_⟩
+    · simp only [Breaker.site, h]; exact h1.2.1
+    · simp only [Breaker.site, h]; exact h1.2.2
+    · simp only [Breaker.site, h]
+      rw [h1.1, applyMarks_single, accept_rw]
+
+/-- non-vacuity: a fresh breaker admits (draw irrelevant) a sqlx query whose scanner hits the deadline and records
+a failure -/
+example : (((Breaker.init 7).site 7 (1/2) .sqlxQuery { err := .ctxDeadline, fromScan := true }).2.rw
+    = (Breaker.init 7).rw.add 7 .fail) := by
+  have hp : ((Breaker.init 7).accept 7 (1/2)).1 = .pass := by
+    have h : ((Breaker.init 7).history 7) = ⟨0, 0, 0, 0⟩ := by decide
+    rw [accept_fst]; unfold Breaker.pathOf; rw [h]
+    have : ¬ (0 < dropRatio0 ⟨0, 0, 0, 0⟩) := by
+      rw [dropRatio0_pos_iff, dropNum_no_accepts _ rfl]; simp; grind
+    simp [acceptPath, this, Path.verdict]
+  have := ((site_end_to_end (Breaker.init 7) 7 (1/2) .sqlxQuery { err := .ctxDeadline, fromScan := true }).2 hp).2.2
+  simpa [Site.pred, scanFailedVar, scanFailedAfter, isScanFailed, sqlAcceptable, dbAcceptable, installOptions, userOptions,
+    optEval] using this
+
+/-- **admission law on the log itself**: after any finite history of calls and gaps, a call (at any later time, with
+any draw) is rejected only if, among the calls RECORDED IN THE LOG for the 40 aligned 250 ms buckets ending now, the
+non-accepted ones exceed 5 + 10 % of the accepted ones.  (Composition of `reject_only_if_over_threshold`,
+`history_totals` and `window_is_log`.) -/
+theorem admission_law_on_log (t0 : Nat) (ops : List Op) (dt : Nat) (u : Rat)
+    (h : (((Sys.init t0).run ops).b.accept (((Sys.init t0).run ops).now + dt) u).1 = .reject) :
+    let now := ((Sys.init t0).run ops).now + dt
+    let L := (List.range (40 - ((Sys.init t0).run ops).b.rw.span now)).map fun i =>
+      Lget (logBucket t0 ((Sys.init t0).run ops).log) (bucketIdx t0 now) (39 - i)
+    10 * (((sumBuckets L).sum : Int) - ((sumBuckets L).succ : Int)) > 50 + ((sumBuckets L).succ : Int) := by
+  intro now L
+  have h1 := reject_only_if_over_threshold _ _ _ h
+  unfold overThreshold at h1
+  rw [(history_totals _ _).1, (history_totals _ _).2, window_is_log t0 ops now (by omega)] at h1
+  exact h1
 
 end GoZero.C01
